@@ -11,7 +11,7 @@ META = {
   trusted=["heap metering by a counting global allocator, time by Instant"],
   timeout=dict(quick=600, thorough=7200)),
  "C06": dict(
-  extra_modules=["C06Errors", "Tie"],
+  extra_modules=["C06Errors", "C06Complete", "Tie"],
   rule="bounded-exhaustive: all buffers up to length L (quick 5, thorough 6) over {00,01,02,03,3F,40,80,C0,C1,'a'} at every start offset, plus random message-like buffers with label runs, pointer chains, self/forward/out-of-range pointers, reserved label types and names around the 255-byte limit; each (buffer, offset) is decoded by Name::parse (hook parse_name_at), by the Lean model and by the RFC 1035 reference decoder (spec.name); non-trivial = offset inside the buffer; distinct = distinct (request, output)",
   assumptions=STD, exhaustive=False, timeout=dict(quick=600, thorough=7200)),
  "C08": dict(
